@@ -1,6 +1,7 @@
 """Bounded refuter / CPython cross-check for TrackingBackend (replay only). Scripts a fake `ops`
 object and runs the real class in a temporary project directory.
-Bound: <= 3 target names, operation sequences of length <= 4 over submit/status/cancel/close+reload,
+Bound: <= 3 target names, operation sequences of length <= 4 over submit/status/cancel/close+reload, continued by
+<= 2 submissions and a close in a second invocation,
 ops.submit_target/close/cancel_job each may raise."""
 import itertools
 import json
@@ -90,6 +91,11 @@ def run_case(close_raises, fail_submit, script):
                 be2 = TrackingBackend(wd, name="fake", ops=ops2) if on_disk != "unreadable" else None
                 if be2 is not None and dict(be2._tracked_jobs) != want_tracked:
                     problems.append(f"a new invocation tracks {dict(be2._tracked_jobs)}, accepted jobs are {want_tracked}")
+                if be2 is None or problems:
+                    return problems
+                # the script goes on in the new invocation (ids keep counting: the scheduler is the same one)
+                ops2.n = ops.n
+                be, ops = be2, ops2
         return problems
     finally:
         shutil.rmtree(wd, ignore_errors=True)
@@ -146,6 +152,10 @@ def search():
     for k in range(0, 4):
         for seq in itertools.permutations(subs, k):
             scripts.append(list(seq) + [("close",)])
+            # a second invocation that submits again (possibly the same targets) and closes
+            for k2 in range(1, 3):
+                for seq2 in itertools.permutations(subs, k2):
+                    scripts.append(list(seq) + [("close",)] + list(seq2) + [("close",)])
     for close_raises in (False, True):
         for fail in ((), (1,), (2,)):
             for sc in scripts:
@@ -170,7 +180,8 @@ def replay(eng, ob, model, seed):
     w, tried = search()
     if w is None:
         return {"failed_on_real_code": False, "candidates_tried": tried,
-                "bound": "<=3 targets, <=3 submissions + close, ops.close / ops.submit_target may raise"}
+                "bound": "<=3 targets, <=3 submissions + close, then <=2 submissions in a second invocation + close; "
+                         "ops.close / ops.submit_target may raise"}
     wc = "close-raising-ops-loses-tracked-jobs" if w["ops.close raises"] else "backend-other"
     return {"failed_on_real_code": True, "input": w, "observed": w["problems"], "candidates_tried": tried,
             "witness_class": wc, "call": "TrackingBackend(wd, 'fake', ops=FakeOps(...)) driven by the script"}
